@@ -1,6 +1,10 @@
 package main
 
 import (
+	"encoding/json"
+	"path/filepath"
+	"os"
+	"regexp"
 	"context"
 	"encoding/hex"
 	"encoding/binary"
@@ -214,11 +218,37 @@ func runC01(c *runCtx) {
 		"SELECT MATCH (a, b) AGAINST ('x' IN BOOLEAN MODE) FROM t", "SELECT a FROM t WHERE a REGEXP 'x' AND b RLIKE 'y'", "DESCRIBE t", "SHOW TABLES", "EXPLAIN ANALYZE SELECT 1", "SET x = 1", "USE db",
 		"SELECT a FROM t1 NATURAL JOIN t2 CROSS JOIN t3 FULL OUTER JOIN t4 USING (a, b)", "SELECT EXTRACT(YEAR FROM a), POSITION('x' IN a), SUBSTRING(a FROM 1 FOR 2), TRIM(BOTH 'x' FROM a), CAST(a AS DECIMAL(10, 2)) FROM t",
 	}
+	// words the grammar knows: the tokenizer's keyword table and every upper-case word literal of the parser package
+	gwords := parserWords()
+	res.statN("grammar_words", len(gwords))
+	// search hints: when a loop of the parser fails the leave-at-end criterion (Props.C01.gen_parser_loops_leave_at_end),
+	// the words its function tests for are tried after every cut
+	var hintWords []string
+	if raw, err := os.ReadFile(verifDir + "/gen/structure.json"); err == nil {
+		var st struct {
+			Loops []struct {
+				Where string   `json:"where"`
+				Class string   `json:"class"`
+				Moves bool     `json:"moves"`
+				Words []string `json:"words"`
+			} `json:"parser_loops"`
+		}
+		if json.Unmarshal(raw, &st) == nil {
+			for _, l := range st.Loops {
+				if l.Class == "open" || !l.Moves {
+					hintWords = append(hintWords, l.Words...)
+					res.Notes = append(res.Notes, "loop failing the criterion: "+l.Where)
+				}
+			}
+		}
+	}
 	cuts := 0
+	hintBudget := 40000
+	hintFailuresBefore := len(res.Failures)
 	for _, stmt := range append(ddl, repoCorpus()...) {
-		words := strings.Fields(stmt)
-		if len(words) > 120 {
-			words = words[:120]
+		words := lexPieces.FindAllString(stmt, -1) // cut at every lexical boundary, not only at blanks
+		if len(words) > 160 {
+			words = words[:160]
 		}
 		for j := 1; j <= len(words); j++ {
 			if c.quick && (j*7+len(words))%3 != 0 && j != len(words) && j != len(words)-1 {
@@ -228,6 +258,23 @@ func runC01(c *runCtx) {
 			run("cut", []byte(prefix), 20*time.Second)
 			run("cut+", []byte(prefix+" "+rb.Pick([]string{".", "(", ",", "AS", "TO", "=", "'x'", "1", ")", "s.", "::", "[", "NOT", "*"})), 20*time.Second)
 			run("cut.", []byte(prefix+"."), 20*time.Second)
+			// … followed by a word of the grammar and nothing else: whatever production the word opens must cope with
+			// the end of the input (also with an identifier or a quoted name after it)
+			if hintBudget > 0 && len(res.Failures) == hintFailuresBefore {
+				for _, w := range hintWords {
+					run("cut+hint", []byte(prefix+" "+w), 20*time.Second)
+					run("cut+hint+", []byte(prefix+" "+w+" x"), 20*time.Second)
+					run("cut+hint+", []byte(prefix+" "+w+" \"C\""), 20*time.Second)
+					hintBudget -= 3
+				}
+			}
+			for k := c.n(3, 24); k > 0 && len(gwords) > 0; k-- {
+				w := gwords[rb.Intn(len(gwords))]
+				run("cut+word", []byte(prefix+" "+w), 20*time.Second)
+				if k%3 == 0 {
+					run("cut+word+", []byte(prefix+" "+w+" "+rb.Pick([]string{"x", "\"C\"", "(", "'s'", "1", ","})), 20*time.Second)
+				}
+			}
 			cuts++
 		}
 	}
@@ -332,6 +379,61 @@ func runC01(c *runCtx) {
 		runT("soup", ts)
 	}
 	_ = gosqlx.Validate
+}
+
+var lexPieces = regexp.MustCompile(`[A-Za-z_][A-Za-z0-9_]*|[0-9]+(?:\.[0-9]+)?|'(?:[^']|'')*'|"[^"]*"|`+"`[^`]*`"+`|::|<>|<=|>=|!=|\|\||->>|->|[^\s]`)
+
+var parserWordRe = regexp.MustCompile(`"([A-Z][A-Z_]{1,24})"`)
+
+// parserWords: the tokenizer's keywords (regenerated table) and the upper-case word literals of pkg/sql/parser
+func parserWords() []string {
+	seen := map[string]bool{}
+	var t struct {
+		Keywords []struct {
+			Word string `json:"word"`
+		} `json:"keywords"`
+	}
+	if raw, err := os.ReadFile(verifDir + "/gen/lex_tables.json"); err == nil {
+		var generic map[string]any
+		if json.Unmarshal(raw, &generic) == nil {
+			if ks, ok := generic["keywords"].([]any); ok {
+				for _, k := range ks {
+					switch x := k.(type) {
+					case []any:
+						if len(x) > 0 {
+							if w, ok := x[0].(string); ok {
+								seen[w] = true
+							}
+						}
+					case map[string]any:
+						for _, v := range x {
+							if w, ok := v.(string); ok && w == strings.ToUpper(w) {
+								seen[w] = true
+							}
+						}
+					}
+				}
+			}
+		}
+		_ = t
+	}
+	files, _ := filepath.Glob("/repo/pkg/sql/parser/*.go")
+	for _, f := range files {
+		if strings.HasSuffix(f, "_test.go") {
+			continue
+		}
+		if raw, err := os.ReadFile(f); err == nil {
+			for _, m := range parserWordRe.FindAllStringSubmatch(string(raw), -1) {
+				seen[m[1]] = true
+			}
+		}
+	}
+	out := make([]string, 0, len(seen))
+	for w := range seen {
+		out = append(out, w)
+	}
+	sort.Strings(out)
+	return out
 }
 
 func clip(s string, n int) string {
